@@ -21,12 +21,16 @@ theorem default_converted_by_type : table.defaultViaIn = true := by decide
 section
 variable {F : Type} (fo : FloatOps F)
 
-/-- **factory_mirror.** For every well-formed description `d` (any tree of embedded devices, any
-    services / state variables / actions / icons; names distinct per scope, declared texts denoting
-    values, related variables declared, SCPD URLs resolving to distinct documents), served at `base`,
-    in strict or non-strict mode: the factory, run on the XML trees of `d`, returns exactly `mirror d`
-    — the same devices, services, actions, arguments bound by name, metadata and resolved URLs — or
-    the same refusal. (`fuel` only bounds the recursion depth of the model.) -/
+/-- **factory_mirror.** For every well-formed description `d` — any tree of embedded devices (any
+    depth and width), any services / state variables / actions / icons, under only the uniqueness
+    UPnP itself demands: service ids unique within a device, UDNs unique among sibling devices,
+    variable / action names unique within a service (`DeviceSpec.wf`; device and service types are
+    URNs, i.e. contain no `#`, and may REPEAT among siblings; declared texts denote values, related
+    variables are declared), SCPD URLs inside the URL grammar with one content per URL (`urlsOk`) —
+    served at `base`, in strict or non-strict mode: the factory, run on the XML trees of `d`, returns
+    exactly `mirror d` — the same devices, services, actions, arguments bound by name, metadata and
+    resolved URLs, one model object per described object — or the same refusal.
+    (`fuel` only bounds the recursion depth of the model.) -/
 theorem factory_mirror (d : DeviceSpec) (base : Str) (nonStrict : Bool) (fuel : Nat)
     (hw : d.wf fo table base = true) (hu : urlsOk base d = true) (hf : d.depth ≤ fuel) :
     asyncCreateDevice fo table (serve base d) nonStrict base fuel = mirror fo table nonStrict base d := by
@@ -131,6 +135,28 @@ theorem nonstrict_degrades (base : Str) (s : ServiceSpec) (hc : s.doc.corrupted)
     have : sp.vars = none := hc
     simp [this]
 
+/-- **The run-time judge accepts every output of the model.** Whatever the description (well-formed
+    or not), base URL and mode: what the factory model returns for the trees and requester of `d`,
+    observed the way the driver observes the implementation (`observedOf` of the flattened graph or
+    the exception), satisfies `judge`. -/
+theorem judge_accepts_model [DecidableEq F] (norm : DevRow F → DevRow F) (d : DeviceSpec) (base : Str)
+    (nonStrict : Bool) (fuel : Nat) (hf : d.depth ≤ fuel) :
+    judge fo table norm nonStrict base d
+      (observedOf (match asyncCreateDevice fo table (serve base d) nonStrict base fuel with
+        | .ok m => .ok (flatten 0 m)
+        | .error e => .error e)) = true := by
+  unfold judge
+  cases hw : (d.wf fo table base && urlsOk base d) with
+  | false => simp
+  | true =>
+    simp only [Bool.and_eq_true] at hw
+    rw [factory_mirror fo d base nonStrict fuel hw.1 hw.2 hf]
+    cases hm : mirror fo table nonStrict base d with
+    | ok m => simp [observedOf]
+    | error e =>
+      have := (refusal_class fo d base nonStrict e hw.1 hm).2
+      cases e <;> simp [FErr.isXml] at this <;> simp [observedOf]
+
 /-- **One-to-one.** The created device has exactly the services of the description, in order, with
     their types; each service's model depends on that service's description only. -/
 theorem services_one_to_one (nonStrict : Bool) (base : Str) (info : List (Option Str)) (icons : List IconSpec)
@@ -231,6 +257,11 @@ def dev : DeviceSpec :=
   .mk (info '0') [{ width := some ['4','8'], url := some ['/','i','c','o','n','.','p','n','g'] }]
     [svc '1' (.scpd good), svc '2' (.foreign (.other []) (.other []))]
     [.mk (info '1') [] [svc '3' (.scpd { vars := none, actions := good.actions }), svc '4' .unparsable] []]
+/-- two services of one type (ids `1`, `2`) and two embedded siblings of one type (UDNs `u1`, `u2`) -/
+def twins : DeviceSpec :=
+  .mk (info '0') []
+    [{ svc '1' (.scpd good) with serviceType := some ['t'] }, { svc '2' (.scpd good) with serviceType := some ['t'] }]
+    [.mk (some ['e'] :: (info '1').tail) [] [] [], .mk (some ['e'] :: (info '2').tail) [] [] []]
 end Example
 
 open Example in
@@ -255,5 +286,16 @@ example :
               [[⟨['m'], ['i','n'], ['M','o','d','e'], ['s','t','r','i','n','g']⟩, ⟨['v'], ['o','u','t'], ['V','o','l','u','m','e'], ['u','i','2']⟩]]))
      | .error _ => false) = true := by
   refine ⟨by decide, by decide, by decide, by decide, by decide⟩
+
+open Example in
+/-- repeated types are inside the domain: the description with twin services and twin embedded
+    devices is well-formed and its mirror has all three devices and both services -/
+example :
+    twins.wf fo table base = true ∧ urlsOk base twins = true ∧
+    (match mirror fo table false base twins with
+     | .ok m => (flatten 0 m).map (fun r => (r.depth, (r.info.getD 9 none), r.services.map (·.serviceId)))
+          == [(0, some ['u','0'], [['1'], ['2']]), (1, some ['u','1'], []), (1, some ['u','2'], [])]
+     | .error _ => false) = true := by
+  refine ⟨by decide, by decide, by decide⟩
 
 end Upnp.C05
